@@ -317,10 +317,15 @@ def _group_level_config_path() -> str | None:
     """Return the path given with the group-level --config option, if any."""
     ctx = click.get_current_context(silent=True)
     obj = ctx.obj if ctx is not None and isinstance(ctx.obj, dict) else {}
+    value = obj.get("cli_config_path")
+    if value and not Path(value).exists():
+        # A configuration file that was asked for and does not exist is a usage error, whichever
+        # option would have taken precedence
+        click.echo(f"Error: Config file not found: {value}", err=True)
+        sys.exit(2)
     if obj.get("cli_project_root"):
         # An explicit --project-root takes precedence: its own configuration file is used
         return None
-    value = obj.get("cli_config_path")
     return str(value) if value else None
 
 
